@@ -201,5 +201,7 @@ def run(ck, facts, tier, only=None):
             got = cel.Ev(facts, hooks=hk6).apply_fn(r["fn"], [S, Rec(NC, {"union_cal": Sym("field", "union_cal")})], 0)
             ck.check(r4, "eq[Cal,NamedCal]", vkey(got) == vkey(Sym("uc_eq", vkey(Sym("field", "union_cal")), vkey(S))), "Cal == NamedCal does not delegate to the named calendar's union equality",
                      "%s:%d" % (r["file"], r["line"]), detail=cel.vfmt(got)[:300], sample="other.union_cal.eq(self)")
+    from rules import pywrap
+    pywrap.run_calendar_wrappers(ck, facts)          # what a Python user calls is the wrapper: it must hand its arguments to the core method unchanged
     ck.not_decided += ["nothing about concrete dates (that is C07)", "equality between two plain Cal objects is the derived structural one (not part of the statement)"]
     ck.trusted += ["lib/cel.py quantifier model (all/any as forall/exists over a symbolic element)"]
